@@ -208,8 +208,22 @@ func TestC27(t *testing.T) {
 	// third front: the subscriptions change while a QoS 2 message is between PUBLISH and PUBREL, and
 	// re-subscriptions which the gateway refuses
 	chg := c27changeCases()
-	total := len(sets) + nHist + len(chg)
+	// fourth front: an Unsubscribe and a Subscribe of one filter in progress at the same time (C26's
+	// overlap cases of those two kinds); the rule judged here is 'once Unsubscribe succeeded the callback
+	// it revoked no longer runs'
+	var ovl []c26overlapCase
+	for _, k := range c26overlapCases() {
+		if k.kind == "sub-unsub" || k.kind == "unsub-sub" {
+			ovl = append(ovl, k)
+		}
+	}
+	total := len(sets) + nHist + len(chg) + len(ovl)
 	r.Each(t, total, 0, nil, func(t *testing.T, c *rt.Case) {
+		if c.I >= len(sets)+nHist+len(chg) {
+			c26overlapRun(t, r, c, ovl[c.I-len(sets)-nHist-len(chg)])
+			c.Evals(1)
+			return
+		}
 		if c.I >= len(sets)+nHist {
 			c27change(t, r, c, chg[c.I-len(sets)-nHist])
 			return
@@ -358,7 +372,7 @@ func TestC27(t *testing.T) {
 			r.Sample(map[string]interface{}{"filters": fs, "deliveries": checked, "example_topics": names[:8]})
 		}
 	})
-	r.Finish(fmt.Sprintf("real client library against a scripted gateway in virtual time. Filter alphabet: %d filters = all level sequences of depth 1-3 over {a,b,empty,+}, each of depth <= 2 also with a trailing '#', and '#'; topic names: %d names = all level sequences of depth 1-3 over {a,b,empty} (incl. leading/trailing '/', '//'). Cases: every single-filter subscription (exhaustive), %d of the %d two-filter sets (thorough: all), and random subscribe/unsubscribe histories; in each case every name is delivered (QoS 0/1/2 at random; REGISTER first, short encoding for 2-byte names) before and after an Unsubscribe. Oracle: independent MQTT 4.7 matcher; no callback when no current filter matches, otherwise exactly one callback whose filter is current and matches. Third front: with callback A subscribed, a message (QoS 0/1/2; for QoS 2 the PUBREL is held back after the PUBLISH) is delivered after {nothing, Unsubscribe, re-Subscribe with callback B, a re-Subscribe with B which the gateway refuses, Subscribe of another matching filter}: the callback that runs is the one of a subscription current at delivery (none after Unsubscribe, B after the accepted re-Subscribe, A after the refused one). Evaluations = deliveries checked; distinct = filter sets.", len(filters), len(names), nPairs, len(pairs))+fmt.Sprintf(" (%d singles)", nSingles), nil)
+	r.Finish(fmt.Sprintf("real client library against a scripted gateway in virtual time. Filter alphabet: %d filters = all level sequences of depth 1-3 over {a,b,empty,+}, each of depth <= 2 also with a trailing '#', and '#'; topic names: %d names = all level sequences of depth 1-3 over {a,b,empty} (incl. leading/trailing '/', '//'). Cases: every single-filter subscription (exhaustive), %d of the %d two-filter sets (thorough: all), and random subscribe/unsubscribe histories; in each case every name is delivered (QoS 0/1/2 at random; REGISTER first, short encoding for 2-byte names) before and after an Unsubscribe. Oracle: independent MQTT 4.7 matcher; no callback when no current filter matches, otherwise exactly one callback whose filter is current and matches. Third front: with callback A subscribed, a message (QoS 0/1/2; for QoS 2 the PUBREL is held back after the PUBLISH) is delivered after {nothing, Unsubscribe, re-Subscribe with callback B, a re-Subscribe with B which the gateway refuses, Subscribe of another matching filter}: the callback that runs is the one of a subscription current at delivery (none after Unsubscribe, B after the accepted re-Subscribe, A after the refused one). Fourth front: Unsubscribe and Subscribe of one filter (already subscribed with callback 'old') in progress at the same time, every accept/refuse combination and acknowledgement order: after the accepted Unsubscribe 'old' never runs. Evaluations = deliveries checked; distinct = filter sets.", len(filters), len(names), nPairs, len(pairs))+fmt.Sprintf(" (%d singles)", nSingles), nil)
 }
 
 func keys(m map[string]bool) []string {
